@@ -9,7 +9,8 @@
 //	(b) direct.go  2-3 concurrent writers on a server-role Conn in direct mode over a fake
 //	               net.Conn whose Write is a scheduling point
 //	(c) queued.go  asynchronous send queue: real Upgrade scenario 4 (unknown net.Conn type,
-//	               BlockingModAsyncWrite, go HandleRead), writers / drainer / read loop / close race
+//	               BlockingModAsyncWrite, go HandleRead), writers / drainer / read loop / close race;
+//	               a few scenarios take the same path with BlockingModAsyncWrite=false
 //	(d) order.go   2 concurrent writers on the engine-backed connection of (a) over a small socket
 //
 // Deviations from the plan in DESIGN: the inline executor is explored only in a few scenarios
